@@ -74,13 +74,14 @@ def libEnds : List Nat → Bool
   | [] => true
   | b :: _ => Lexer.isBreak b
 
+def dropMinus : List Nat → List Nat
+  | 45 :: r => r
+  | l => l
+
 /-- the writer's real token is a decimal token `-? digits+ (. digits+)?` — the *syntactic
     hypothesis on the formatter*; checked on every emitted real at run time -/
 def IsDecTok (t : List Nat) : Bool :=
-  let u := match t with
-    | 45 :: r => r
-    | l => l
-  match Spec.Syntax.splitDot u with
+  match Spec.Syntax.splitDot (dropMinus t) with
   | (a, none) => !a.isEmpty && Spec.Syntax.allDigits a
   | (a, some f) => !a.isEmpty && Spec.Syntax.allDigits a && !f.isEmpty && Spec.Syntax.allDigits f
 
@@ -118,7 +119,7 @@ def SafeSpec : Obj → List Nat → Bool
     IsDecTok (trimReal t) && specEnds rest &&
       (!Spec.Syntax.allDigits (trimReal t) || (Spec.Syntax.refAhead rest).isNone)
   | .str s, _ => NoCR s
-  | .hexstr _, _ => true
+  | .hexstr bs, _ => allB (fun b => b < 256) bs
   | .name n, rest => SpecNameOk n && specEnds rest
   | .ref _ _, rest => specEnds rest
   | .arr xs, rest => SafeSpecElems true xs (93 :: rest)
@@ -146,7 +147,7 @@ def SafeLib : Obj → List Nat → Bool
         inI64 i && (!(0 ≤ i && i ≤ 9999999) || libIntFollowOk rest)
       else true)
   | .str _, _ => true
-  | .hexstr _, _ => true
+  | .hexstr bs, _ => allB (fun b => b < 256) bs
   | .name n, rest => LibNameOk n && libEnds rest
   | .ref n g, rest => n ≤ 9999999 && g ≤ 65535 && libEnds rest
   | .arr xs, rest => SafeLibElems true xs (93 :: rest)
